@@ -224,6 +224,26 @@ impl<'a> Gen<'a> {
             } else {
                 Node::Debug { tag: self.tag(), vars: vars.to_vec() }
             };
+            // some messages mention the parent selector: alone (`@warn w7 &`, no variable and no
+            // interpolation, yet a different message under every rule) or interpolated with the rest
+            let node = match node {
+                Node::Warn { tag, vars } if self.rng.chance(0.2) => {
+                    if self.rng.chance(0.5) {
+                        Node::Warn { tag, vars: vec!["&".to_string()] }
+                    } else {
+                        let mut v = vars;
+                        v.push("&".to_string());
+                        Node::Warn { tag, vars: v }
+                    }
+                }
+                // (@debug inspects its value, and what inspect makes of a bare `&` is not C19's subject)
+                Node::Debug { tag, vars } if !vars.is_empty() && self.rng.chance(0.2) => {
+                    let mut v = vars;
+                    v.push("&".to_string());
+                    Node::Debug { tag, vars: v }
+                }
+                n => n,
+            };
             let node = match node {
                 Node::Call { func, arg } if self.rng.chance(0.4) => Node::DebugOfCall { tag: self.tag(), func, arg },
                 Node::Call { func, arg } if self.rng.chance(0.4) => Node::Lazy { kind: self.rng.below(7) as u8, tag: self.tag(), f1: func, f2: self.rng.usize_below(nfun), arg },
@@ -305,9 +325,19 @@ impl Printer {
         }
     }
     fn msg(prefix: &str, tag: u32, vars: &[String]) -> String {
+        // the pseudo variable "&" stands for the parent selector: alone, it is written without
+        // interpolation (`@warn w7 &`: a message that differs from one execution to the next
+        // although the expression has no variable in it); next to others it is interpolated
+        if vars.len() == 1 && vars[0] == "&" {
+            return format!("{}{} &", prefix, tag);
+        }
         let mut m = format!("{}{}", prefix, tag);
         for v in vars {
-            m.push_str(&format!("-#{{${}}}", v));
+            if v == "&" {
+                m.push_str("-#{&}");
+            } else {
+                m.push_str(&format!("-#{{${}}}", v));
+            }
         }
         m
     }
@@ -628,6 +658,8 @@ struct Exec<'a> {
     used: BTreeSet<usize>,
     /// set by an early `@return`; consumed at the call site of the function
     returned: bool,
+    /// selectors of the style rules around the statement being executed (what `&` shows)
+    sel: Vec<String>,
 }
 
 impl<'a> Exec<'a> {
@@ -665,12 +697,29 @@ impl<'a> Exec<'a> {
         }
         m
     }
+    /// like `msg`, for directives whose text may mention the parent selector
+    fn msg_sel(&self, prefix: &str, tag: u32, vars: &[String], env: &BTreeMap<String, i64>) -> String {
+        let parent = self.sel.join(" ");
+        if vars.len() == 1 && vars[0] == "&" {
+            // a space-separated list whose second element is `&`: null (no parent) is left out
+            return if parent.is_empty() { format!("{}{}", prefix, tag) } else { format!("{}{} {}", prefix, tag, parent) };
+        }
+        let mut m = format!("{}{}", prefix, tag);
+        for v in vars {
+            if v == "&" {
+                m.push_str(&format!("-{}", parent));
+            } else {
+                m.push_str(&format!("-{}", env.get(v).copied().unwrap_or(-999)));
+            }
+        }
+        m
+    }
     /// returns false when an @error stopped execution
     fn run(&mut self, fi: usize, nodes: &[Node], env: &mut BTreeMap<String, i64>, content: Option<(&[Node], usize, BTreeMap<String, i64>)>) -> bool {
         for n in nodes {
             match n {
-                Node::Debug { tag, vars } => self.out.push(Expected { kind: "debug".into(), file: self.files[fi].path.clone(), line: self.lines[fi][tag], msg: Self::msg("d", *tag, vars, env) }),
-                Node::Warn { tag, vars } => self.out.push(Expected { kind: "warn".into(), file: self.files[fi].path.clone(), line: self.lines[fi][tag], msg: Self::msg("w", *tag, vars, env) }),
+                Node::Debug { tag, vars } => self.out.push(Expected { kind: "debug".into(), file: self.files[fi].path.clone(), line: self.lines[fi][tag], msg: self.msg_sel("d", *tag, vars, env) }),
+                Node::Warn { tag, vars } => self.out.push(Expected { kind: "warn".into(), file: self.files[fi].path.clone(), line: self.lines[fi][tag], msg: self.msg_sel("w", *tag, vars, env) }),
                 Node::Error { tag, vars } => {
                     let m = Self::msg("e", *tag, vars, env);
                     let inspected = match tag % ERROR_FORMS {
@@ -761,8 +810,11 @@ impl<'a> Exec<'a> {
                         return false;
                     }
                 }
-                Node::Rule { body, .. } => {
-                    if !self.run(fi, body, env, content.clone()) {
+                Node::Rule { sel, body } => {
+                    self.sel.push(sel.clone());
+                    let ok = self.run(fi, body, env, content.clone());
+                    self.sel.pop();
+                    if !ok {
                         return false;
                     }
                 }
@@ -873,7 +925,11 @@ impl<'a> Exec<'a> {
     }
     fn file(&mut self, fi: usize) -> bool {
         for u in self.files[fi].uses.clone() {
-            if self.used.insert(u) && !self.file(u) {
+            // a module is evaluated on its own, whatever rule the file that uses it was imported under
+            let outer = std::mem::take(&mut self.sel);
+            let ok = !self.used.insert(u) || self.file(u);
+            self.sel = outer;
+            if !ok {
                 return false;
             }
         }
@@ -1106,7 +1162,7 @@ pub fn gen_script(rng: &mut Rng, root: &str) -> Script {
         lines.push(p.lines);
     }
     // execute the tree
-    let mut ex = Exec { files: &files, lines: &lines, out: vec![], error: None, used: BTreeSet::new(), returned: false };
+    let mut ex = Exec { files: &files, lines: &lines, out: vec![], error: None, used: BTreeSet::new(), returned: false, sel: vec![] };
     ex.file(0);
     let mut job = JobSpec::default();
     job.cwd = root.to_string();
